@@ -55,7 +55,9 @@ def _tables(job):
             for eol in ('\n', '\r\n'):
                 line = render_csv(row, quoting, eol)
                 for source in ('csv-raw', 'ob-csv'):
-                    check_line(source, line, ',', row, st, {'kind': 'csv', 'row': row, 'quoting': qn, 'eol': eol, 'source': source})
+                    # the CSV formats are comma-separated by definition: the result must not depend on the delimiter argument a caller happens to pass
+                    for delim in (',', '\t', None):
+                        check_line(source, line, delim, row, st, {'kind': 'csv', 'row': row, 'quoting': qn, 'eol': eol, 'source': source, 'delimiter': delim})
                 if ncols >= 2:
                     st.count('nontrivial')
         line = '\t'.join(row) + '\n'
@@ -172,7 +174,7 @@ def _nsmaps(_):
     st = Stats()
     d = scratch_dir('c16ns')
     try:
-        ids = [('AE', 'f1'), ('AK', 'f2'), ('As', 'f3')]
+        ids = [('AE', 'f1'), ('AK', 'ad_id'), ('As', 'f_3')]   # feature names with and without underscores
         for r in range(0, 4):
             for chosen in itertools.permutations(ids, r):
                 for types in itertools.product(TYPES, repeat=r):
@@ -336,7 +338,7 @@ def eval_case(case):
         return seqdiff.replay(seq_call, SEQ_LINES, case['seq'])
     if k == 'csv':
         q = csv.QUOTE_MINIMAL if case['quoting'] == 'minimal' else csv.QUOTE_ALL
-        check_line(case['source'], render_csv(case['row'], q, case['eol']), ',', case['row'], st, case)
+        check_line(case['source'], render_csv(case['row'], q, case['eol']), case.get('delimiter', ','), case['row'], st, case)
     elif k == 'tsv':
         check_line('ob-raw-dump', '\t'.join(case['row']) + '\n', '\t', case['row'], st, case)
     elif k == 'vw':
